@@ -2,6 +2,7 @@ import GrinVerif.Drv.Common
 import GrinVerif.Model.Kv
 import GrinVerif.Model.KvSpace
 import GrinVerif.Model.KvResize
+import GrinVerif.Model.TxCount
 import GrinVerif.Model.ChainStore
 /-! Driver glue for the `kv` domain (property C18): folds the model `GV.Kv.St` over the op lines
 of `harness/src/bin/kv.rs` and recomputes every answer.
@@ -26,6 +27,12 @@ given time before the call.  The driver folds the resize protocol model with its
 and predicts the map size the meta page shows after the commit (`dropped`: the batch was dropped,
 nothing observable).  With `settled=0` the call races with a pending waiter thread: both orders
 are computed and, when they differ, either is accepted.
+
+`kv txseq <threads> <e0,e0,l0,q,…> => completed:resizes=<k>`: run `selfiter`, nesting cases — the
+sequence of `enter_tx` / `TxCounter::drop` per thread (`e<t>` / `l<t>`), resize request (`q`) and
+resize (`w`) the harness really went through, every operation having returned; replayed on the
+counter model with per-thread nesting depth (`Model/TxCount.lean`, `nested_depth_tracks_open`,
+`holder_never_waits`): the model must be able to take every step and end with nothing open.
 
 `kv space <map> <last_pg> <need> <chunk>`: run `frag` — the batch just executed could allocate at
 most `need` pages; if they fit behind the last page of the map `needs_resize` leaves, the batch
@@ -197,6 +204,9 @@ def kvArg (args : List String) (k : String) : Option Nat :=
 
 def handle (st : St) (args : List String) (impl : String) : St × Verdict :=
   match args with
+  | ["txseq", n, toks] => match nat? n, (toks.splitOn ",").mapM GV.TxCount.parseAct with
+    | some n, some acts => (st, cmpModel (GV.TxCount.replay n acts) impl)
+    | _, _ => (st, .unknown)
   | ["rz-new", m, c] => match nat? m, nat? c with
     | some m, some c => ({ st with rz := rinit m c }, .ok)
     | _, _ => (st, .unknown)
